@@ -75,7 +75,7 @@ class Model:
       # the free-standing object lives in an (untyped) keeper dict: it has a parent, so the holder stores copies
       self.keeper = pg.Dict(e=vs.mkvalue(ext))
       init = {vs.key_name(k): vs.mkvalue(v) for k, v in root['xs'] if v['t'] != 'missing'}
-      return self.cls(**init)
+      return self.cls.partial(**init) if partial else self.cls(**init)
     if self.kind in ('list', 'list2'):
       return pg.List(vs.mkvalue(root), value_spec=vs.build(self.spec_rec), allow_partial=partial)
     init = {vs.key_name(k): vs.mkvalue(v) for k, v in root['xs'] if v['t'] != 'missing'}
